@@ -730,13 +730,34 @@ def _softmax(x, dim, half_to_float):
     out = np.empty(X.shape, dtype=object)
     dim = dim % max(X.ndim, 1)
     tot = _reduce(E, dim, True, e_add, Fraction(0)) if X.ndim else E
+    ng = len(core.CUR.guards)
     for idx in np.ndindex(*X.shape):
         k = list(idx)
         if X.ndim:
             k[dim] = 0
         out[idx] = e_div(E[idx], tot[tuple(k)] if X.ndim else tot[()])
-    # the denominator is a sum of positive terms: its division guard is discharged here
-    core.CUR.guards = [g for g in core.CUR.guards if not _is_softmax_den(g, tot)]
+    # the denominator is a sum of positive terms: its division guards are discharged here
+    del core.CUR.guards[ng:]
+    # valid lemmas about softmax (consequences of exp > 0 and exp strictly increasing) that spare z3 the non-linear
+    # reasoning through the division: positivity, normalisation and order preservation inside each group
+    if X.ndim:
+        Xm, Om = np.moveaxis(X, dim, -1), np.moveaxis(out, dim, -1)
+        for idx in np.ndindex(*Xm.shape[:-1]):
+            xs, os_ = list(Xm[idx]), list(Om[idx])
+            if not any(is_sym(v) for v in os_):
+                continue
+            ex = core.CUR
+            for o in os_:
+                if is_sym(o):
+                    ex.add_axiom(o > 0)
+                    ex.add_axiom(o <= 1)
+            ex.add_axiom(z3.Sum([lift(o, 'r') for o in os_]) == 1)
+            for i in range(len(xs)):
+                for j in range(i + 1, len(xs)):
+                    xi, xj, oi, oj = lift(xs[i], 'r'), lift(xs[j], 'r'), lift(os_[i], 'r'), lift(os_[j], 'r')
+                    ex.add_axiom(z3.Implies(xi > xj, oi > oj))
+                    ex.add_axiom(z3.Implies(xi < xj, oi < oj))
+                    ex.add_axiom(z3.Implies(xi == xj, oi == oj))
     return SymTensor.from_array(out, x.dtype)
 
 
